@@ -56,11 +56,10 @@ def run(ctx):
     if ctx.thorough():
         # thorough: every script of the larger bound, every schedule of the quick bound and a seeded sample of
         # the longer schedules
-        short = set(open(os.path.join(ctx.tlc("CacheGen", cfg="CacheGen_quick.cfg", workers=1, name="gen_short", timeout=1800)["dir"],
-                                      "vec_conc.ndjson")).read().splitlines())
-        longer = [c for c in concs if c not in short]
+        short = [c for c in concs if len(json.loads(c)["schedule"]) <= 4]
+        longer = [c for c in concs if len(json.loads(c)["schedule"]) > 4]
         pick_s = scripts
-        pick_c = sorted(short) + rnd.sample(longer, min(len(longer), 30000))
+        pick_c = short + rnd.sample(longer, min(len(longer), 30000))
     else:
         # quick: the whole space of the quick bound (scripts of <= 4 steps, schedules of <= 4 steps)
         pick_s = scripts
